@@ -254,3 +254,19 @@ Print Assumptions C19_history_first.
 Theorem C19_history_sticky : forall P i o l, calls P i (Some o) l = map (fun _ => Some (Ok o)) l.
 Proof. exact calls_sticky. Qed.
 Print Assumptions C19_history_sticky.
+
+(* ---- the regenerated program threaded through any sequence of calls is the reference history,
+   and the history theorems hold of the regenerated program itself *)
+Theorem C19_generated_history_is_model : forall i l, model_calls i l = ref_calls i l.
+Proof. exact generated_history_is_model. Qed.
+Print Assumptions C19_generated_history_is_model.
+
+Theorem C19_history_consistent_generated : forall i l k o,
+  nth_error (model_calls i l) k = Some (Some (Ok o)) ->
+  exists j s, (j <= k)%nat /\ nth_error l j = Some s /\ model (with_call i s) = Some (Ok o).
+Proof. exact history_consistent_generated. Qed.
+Print Assumptions C19_history_consistent_generated.
+
+Theorem C19_history_check_generated : forall i l, history_ok (model_calls i l) (spec_singles i l) = true.
+Proof. exact history_check_generated. Qed.
+Print Assumptions C19_history_check_generated.
